@@ -20,21 +20,31 @@ Theorem C14_row_roundtrip :
 Proof. exact row_roundtrip. Qed.
 Print Assumptions C14_row_roundtrip.
 
-(* the input simulated by an iteration: if the base file ends with a new line, every sampled 'name, value' pair is a
-   line of its own of that input (so the recorded value is the simulated one) ... *)
-Theorem C14_sampled_inputs_are_lines_partial :
+(* the input simulated by an iteration (current code, db0b708: the sampled lines start on a new line): for EVERY base
+   file, every sampled 'name, value' pair is a line of its own of that input - so the recorded value is the simulated
+   one - and the lines of the base file are unchanged *)
+Theorem C14_sampled_inputs_are_lines :
+  forall base entries,
+  forallb (fun e => no_nl (entry_line e)) entries = true ->
+  (forall e, In e entries -> In (entry_line e) (file_lines (input_file base entries))) /\
+  file_lines (input_file base entries) = (file_lines base ++ map entry_line entries ++ [""])%list.
+Proof. exact (fun b es H => conj (fun e => input_file_lines b es e H) (input_file_base_lines b es H)). Qed.
+Print Assumptions C14_sampled_inputs_are_lines.
+
+(* the code before db0b708: true only of base files that end with a new line ... *)
+Theorem C14_sampled_inputs_pinned_partial :
   forall b0 entries e,
   forallb (fun e => no_nl (entry_line e)) entries = true -> In e entries ->
-  In (entry_line e) (file_lines (input_file (b0 ++ String NLc "") entries)).
-Proof. exact input_file_lines. Qed.
-Print Assumptions C14_sampled_inputs_are_lines_partial.
+  In (entry_line e) (file_lines (input_file_pinned (b0 ++ String NLc "") entries)).
+Proof. exact input_file_pinned_lines. Qed.
+Print Assumptions C14_sampled_inputs_pinned_partial.
 
-(* ... and the clause is refuted for a base file without final new line: the first pair is glued to its last line *)
-Theorem C14_sampled_inputs_are_lines_refuted :
-  exists base entries e, In e entries /\ ~ In (entry_line e) (file_lines (input_file base entries))
-    /\ file_lines (input_file base entries) = ["Reservoir Life Cycle, 25, yearsReservoir Area, 81.5"; ""].
-Proof. exact input_file_glued. Qed.
-Print Assumptions C14_sampled_inputs_are_lines_refuted.
+(* ... and refuted otherwise: the first pair is glued to the last line (regression seed corpus/C14/base_without_final_newline) *)
+Theorem C14_sampled_inputs_pinned_refuted :
+  exists base entries e, In e entries /\ ~ In (entry_line e) (file_lines (input_file_pinned base entries))
+    /\ file_lines (input_file_pinned base entries) = ["Reservoir Life Cycle, 25, yearsReservoir Area, 81.5"; ""].
+Proof. exact input_file_pinned_glued. Qed.
+Print Assumptions C14_sampled_inputs_pinned_refuted.
 
 (* columns line up with the header exactly when every requested output is found (once) in the report ... *)
 Theorem C14_alignment_partial :
@@ -51,20 +61,21 @@ Theorem C14_alignment_refuted :
 Proof. exact alignment_shift. Qed.
 Print Assumptions C14_alignment_refuted.
 
-(* appends: atomic appends in any order give a permutation of the rows; under the lock protocol with mutual
-   exclusion the file holds exactly the finished work packages (without it: C13_row_count_refuted) *)
+(* appends: atomic appends in any order give a permutation of the rows; under the lock protocol of the current code
+   the file holds exactly the finished work packages for every interleaving without time-out (the code before
+   1d8733c needed mutual exclusion: C13_row_count_pinned_refuted; time-outs: C13_row_count_timeout_refuted) *)
 Theorem C14_interleave :
   forall (A : Type) (row : nat -> A) tasks order, Permutation tasks order ->
   Permutation (map row tasks) (map row order).
 Proof. exact (@interleave_perm). Qed.
 Print Assumptions C14_interleave.
 
-Theorem C14_interleave_lock_partial :
-  forall sched tasks, mutex_run linit sched -> NoDup tasks ->
+Theorem C14_interleave_lock :
+  forall sched tasks, Forall (fun s => snd s = Step) sched -> NoDup tasks ->
   (forall t, In t tasks <-> finished (phases (lrun linit sched) t) = true) ->
   Permutation tasks (file (lrun linit sched)).
-Proof. exact mutex_file_perm. Qed.
-Print Assumptions C14_interleave_lock_partial.
+Proof. exact lock_file_perm. Qed.
+Print Assumptions C14_interleave_lock.
 
 (* an iteration that fails removes its own row and nothing else *)
 Theorem C14_failure_local :
@@ -124,6 +135,8 @@ Example C14_example_failure :
 Proof. vm_compute. reflexivity. Qed.
 
 Example C14_example_sampled_inputs :
-  file_lines (input_file ("Reservoir Life Cycle, 25" ++ String NLc "") [("Reservoir Area", "81.5"); ("B", "2")])
-  = ["Reservoir Life Cycle, 25"; "Reservoir Area, 81.5"; "B, 2"; ""].
-Proof. vm_compute. reflexivity. Qed.
+  file_lines (input_file "Reservoir Life Cycle, 25, years" [("Reservoir Area", "81.5"); ("B", "2")])
+  = ["Reservoir Life Cycle, 25, years"; "Reservoir Area, 81.5"; "B, 2"; ""]
+  /\ file_lines (input_file_pinned ("Reservoir Life Cycle, 25" ++ String NLc "") [("Reservoir Area", "81.5")])
+  = ["Reservoir Life Cycle, 25"; "Reservoir Area, 81.5"; ""].
+Proof. split; vm_compute; reflexivity. Qed.
